@@ -1,6 +1,7 @@
 SPECIFICATION Spec
 CONSTANTS
   NoFinally = FALSE
+  CloseUnwinds = TRUE
   AllowReentry = TRUE
   MaxLen = 3
   MaxOps = 4
